@@ -196,6 +196,9 @@ def run(ctx, res):
     from pico8.game import file as gfile
     for i in range(ctx.budget(6, 60)):
         src = gen_lua.gen_program(rng)[0]
+        if i % 3 == 0:
+            # bytes that some text APIs treat as line boundaries but the Lua lexer does not, inside a long string and a comment
+            src = b'--[[h\x0ci]]\nlocal s=[[a\x0cb\x0bc\x1cd\x1de\x85f]] q="\x0c"\n' + src
         try:
             g = U.make_game(rng=rng, code=src, version=8)
         except Exception:
